@@ -83,7 +83,24 @@ template <class C> struct Runner {
         }
     }
     std::vector<Uri> keep_uris;
+    // (c) every sub-range [j, i) of one shared buffer that parses, all pairs: components of two URIs then start (or end) at the very
+    //     same address although their texts differ, which is what a pointer-identity shortcut in a comparison would trip over
+    void shared_buffer(const Str &text) {
+        std::basic_string<C> w = widen<C>(text); struct Sub { size_t j, i; Uri u; ref::RUri r; }; std::vector<Sub> subs; subs.reserve(w.size() * w.size() / 2 + 2);
+        for (size_t j = 0; j <= w.size(); j++) for (size_t i = j; i <= w.size(); i++) {
+            if (j > 0 && j < w.size() && i != w.size() && (j % 3)) continue;       // all prefixes, all suffixes, and every third start for inner ranges
+            Sub s; s.j = j; s.i = i; const C *ep; if (!ref::decompose(text.substr(j, i - j), s.r)) continue;
+            if (A::ParseSingleUriEx(&s.u, w.data() + j, w.data() + i, &ep) != URI_SUCCESS) { ctx->harness_error("shared-buffer range does not parse: " + text.substr(j, i - j)); continue; }
+            subs.push_back(s);
+        }
+        for (auto &a : subs) for (auto &b : subs) {
+            lc->pairs++; bool e = ref_equal(a.r, b.r), ab = A::EqualsUri(&a.u, &b.u) == URI_TRUE; if (e) lc->equal_pairs++;
+            if (ab != e) ctx->violation("", "shared`" + text + fmt("`%zu.%zu.%zu.%zu.", a.j, a.i, b.j, b.i) + A::name(), fmt("ranges [%zu,%zu) '%s' and [%zu,%zu) '%s' of one buffer: uriEqualsUri says %s, component-wise identity says %s", a.j, a.i, text.substr(a.j, a.i - a.j).c_str(), b.j, b.i, text.substr(b.j, b.i - b.j).c_str(), ab ? "equal" : "different", e ? "equal" : "different"));
+        }
+        for (auto &s : subs) A::FreeUriMembers(&s.u);
+    }
 };
+static const char *SHARED_TEXTS[] = { "s://u@h:80/a/b?q#f", "//[::1]:8/p//q?x#y", "a/b/c", "/a//b/", "s:aa/aa?aa#aa", "//1.2.3.4:1?#", "s://uu@hh:11/pp?qq#ff", "//[v1.ab]/ab", "aaaa", "a:a:a/a:a" };
 
 static std::vector<Str> produce_seeds(int n) {
     std::vector<Str> v = resolve_refs(n, false); std::vector<Str> extra = { "s:/", "s:", "s:/a", "s:a", "s://h", "s://h/", "s://h/a/../", "s:/a/..", "t:/a/..", "s:/.//a", "S://H/%41", "s://h/A" };
@@ -95,6 +112,7 @@ void run(Ctx &ctx) {
     Runner<char> ra(&ctx, &lc); Runner<wchar_t> rw(&ctx, &lc); ra.setup(fam); rw.setup(fam);
     for (size_t i = 0; i < ra.fam.size(); i++) { if (!ctx.mine(i)) continue; if (ctx.expired()) break; ctx.progress++; ra.run_row(i); rw.run_row(i); if (i < 150) { ra.triples(i, 150); } }
     if (ctx.worker == 0) { ra.nulls(); rw.nulls(); }
+    { int k = 0; for (const char *t : SHARED_TEXTS) { if (!ctx.mine(k++)) continue; int sig; if ((sig = GUARD_ENTER()) == 0) { ra.shared_buffer(t); rw.shared_buffer(t); GUARD_LEAVE(); ctx.st.count("shared_buffer_texts"); } else ctx.violation("", Str("shared`") + t + "`0.0.0.0.A", fmt("%s while comparing ranges of one buffer", signame(sig))); } }
     // library-made objects: equality <=> identical recomposed text
     {
         std::vector<Str> seeds = produce_seeds(ctx.secondary ? 1 : ctx.quick() ? 2 : 3), bases = { "s://h/a/b", "s:/a", "s:a/b", "s://h", "s:/" };
@@ -123,6 +141,7 @@ void replay(Ctx &ctx, const Str &enc) {
         if (a && b) { bool eq = Api<char>::EqualsUri(&a->u, &b->u) == URI_TRUE, same = a->text == b->text; if (eq != same) ctx.violation("", enc, fmt("uriEqualsUri says %s but the recomposed texts are '%s' and '%s'", eq ? "equal" : "different", a->text.c_str(), b->text.c_str())); }
         return;
     }
+    if (p[0] == "shared") { if (p[2].size() && p[2][p[2].size() - 1] == 'A') { Runner<char> r(&ctx, &lc); r.shared_buffer(p[1]); } else { Runner<wchar_t> r(&ctx, &lc); r.shared_buffer(p[1]); } return; }
     std::vector<Str> two; two.push_back(p[0]); if (!p[1].empty()) two.push_back(p[1]);
     if (p[2] == "A") { Runner<char> r(&ctx, &lc); r.setup(two); if (r.fam.size() == two.size()) r.pair(r.fam[0], r.fam[two.size() - 1]); }
     else { Runner<wchar_t> r(&ctx, &lc); r.setup(two); if (r.fam.size() == two.size()) r.pair(r.fam[0], r.fam[two.size() - 1]); }
@@ -132,7 +151,7 @@ Str coverage(const Ctx &, const Stats &st) {
            jkv("evaluations", st.get("evaluations")) + ", " + jkv("distinct_nontrivial", st.get("family_equal_pairs") + st.get("produced_pairs_same_text")) + ", " +
            jkvs("rule", "cases = ordered pairs of URI objects. (a) all pairs of a family containing every one-component difference (3 schemes x 16 authorities incl. IPv4/IPv6-by-value/IPvFuture variants x 12 paths x 3 queries x 3 fragments, valid combinations), both character types, arguments in read-only memory, judged by component-wise identity of the reference decomposition; (b) all pairs of library-made objects (parse, normalise, makeOwner, resolve, normalise(resolve), shorten in both modes over a token-sequence seed set x 5 bases), judged by identity of the recomposed text; (c) all triples of a 150-element subset for transitivity; NULL arguments; reflexivity. distinct_nontrivial = number of pairs where the oracle says EQUAL (the non-trivial side), counted.") + ", " +
            jkv("family", st.get("family")) + ", " + jkv("family_pairs", st.get("family_pairs")) + ", " + jkv("family_equal_pairs", st.get("family_equal_pairs")) + ", " + jkv("triples", st.get("triples")) + ", " +
-           jkv("produced_objects", st.get("produced_objects")) + ", " + jkv("produced_pairs", st.get("produced_pairs")) + ", " + jkv("produced_pairs_same_text", st.get("produced_pairs_same_text")) + ", " + jsamples(st);
+           jkv("produced_objects", st.get("produced_objects")) + ", " + jkv("produced_pairs", st.get("produced_pairs")) + ", " + jkv("produced_pairs_same_text", st.get("produced_pairs_same_text")) + ", " + jkv("shared_buffer_texts", st.get("shared_buffer_texts")) + ", " + jsamples(st);
 }
 Check chk = { "C11", "model_checking", run, replay, coverage, "states are URI objects, transitions are comparisons; explicit enumeration of all pairs of two finite object sets|component identity is judged on the reference decomposition of the source text" };
 REGISTER_CHECK(chk);
